@@ -59,10 +59,9 @@ func lengths() []int {
 			out = append(out, l)
 		}
 	}
-	add(0, 40)
-	add(560, 610)
-	add(1490, 1710)
+	add(0, 1800) // every length up to beyond the 1600-byte buffers
 	add(8960, 9010)
+	add(32760, 32776)
 	add(65480, 65507)
 
 	return out
